@@ -465,7 +465,11 @@ func (r *Renderer) selector(o *out, s Sel) grammar.Selector {
 		sb.WriteByte('[')
 		sb.WriteString(r.optBlank())
 		if ps == SelBacktick && rawQuotable(p) {
-			sb.WriteString("`" + p + "`")
+			if !r.NoLayout && r.Ch.Intn(16) == 15 {
+				sb.WriteString("`\r" + p + "`") // the carriage return is discarded
+			} else {
+				sb.WriteString("`" + p + "`")
+			}
 		} else {
 			sb.WriteString(r.quote(p))
 		}
@@ -511,7 +515,14 @@ func (r *Renderer) value(o *out, lit string) {
 		r.SlashLits++
 	}
 	if style == 2 && rawQuotable(lit) {
-		o.tok("`" + lit + "`")
+		raw := lit
+		if !r.NoLayout && r.Ch.Intn(12) == 11 {
+			// carriage returns inside a raw string literal are discarded (Go raw string semantics)
+			i := r.Ch.Intn(len(raw) + 1)
+			raw = raw[:i] + "\r" + raw[i:]
+			r.EscapedLits++
+		}
+		o.tok("`" + raw + "`")
 		return
 	}
 	o.tok(r.quote(lit))
